@@ -333,54 +333,86 @@ pub struct ConcCase {
 }
 
 fn run_conc(c: &ConcCase) -> Verdict {
+    use std::sync::atomic::{AtomicUsize, Ordering as AO};
     let mut v = Verdict::new();
     let dir = tempfile::tempdir().unwrap();
     let path = dir.path().join("counters.bin");
-    let rt = tokio::runtime::Builder::new_multi_thread().worker_threads(c.threads as usize).enable_all().build().unwrap();
+    let rt = tokio::runtime::Builder::new_multi_thread().worker_threads(2).enable_all().build().unwrap();
     let sys = std::sync::Arc::new(rt.block_on(async { MonotonicCounterSystem::new_with_sync_interval(path, Duration::from_secs(3600)).await.unwrap() }));
     let peer = uid(0);
+    let threads = c.threads as usize;
+    let rounds = c.rounds as usize;
+    // T OS threads, lined up for every round by a spinning start gate (an OS barrier wakes its waiters far too
+    // unevenly to make them collide inside a critical section of a few hundred nanoseconds)
+    let go = std::sync::Arc::new(AtomicUsize::new(0));
+    let done = std::sync::Arc::new(AtomicUsize::new(0));
+    let slots: std::sync::Arc<Vec<std::sync::Mutex<Option<R>>>> = std::sync::Arc::new((0..threads * rounds).map(|_| std::sync::Mutex::new(None)).collect());
     let mut total_valid = 0u64;
-    for round in 0..c.rounds {
-        let seq = round as u64 + 1;
-        let barrier = std::sync::Arc::new(tokio::sync::Barrier::new(c.threads as usize));
-        let results: Vec<R> = rt.block_on(async {
-            let mut hs = Vec::new();
-            for t in 0..c.threads {
-                let sys = sys.clone();
-                let peer = peer.clone();
-                let barrier = barrier.clone();
-                let via_batch = c.via_batch;
-                let dh = c.distinct_hashes;
-                hs.push(tokio::spawn(async move {
-                    let mut h = [7u8; 32];
+    std::thread::scope(|sc| {
+        for t in 0..threads {
+            let (sys, peer, go, done, slots, h) = (sys.clone(), peer.clone(), go.clone(), done.clone(), slots.clone(), rt.handle().clone());
+            let (via_batch, dh) = (c.via_batch, c.distinct_hashes);
+            sc.spawn(move || {
+                for round in 0..rounds {
+                    let seq = round as u64 + 1;
+                    let mut hash = [7u8; 32];
                     if dh {
-                        h[0] = t;
+                        hash[0] = t as u8;
                     }
-                    barrier.wait().await;
-                    if via_batch {
-                        let ts = now();
-                        let r = sys.batch_update(vec![BatchUpdateRequest { user_id: peer, sequence: seq, message_hash: h, timestamp: ts }]).await.unwrap();
-                        r[0].result.clone()
-                    } else {
-                        sys.validate_sequence(&peer, seq, h).await.unwrap()
+                    let mut spins = 0u64;
+                    while go.load(AO::Acquire) <= round {
+                        spins += 1;
+                        if spins > 200_000_000 {
+                            return; // the driver gave up (a failure was reported)
+                        }
+                        std::hint::spin_loop();
                     }
-                }));
-            }
-            let mut out = Vec::new();
-            for h in hs {
-                out.push(h.await.unwrap());
-            }
-            out
-        });
-        let valid = results.iter().filter(|r| matches!(r, R::Valid)).count();
-        total_valid += valid as u64;
-        if valid != 1 {
-            v.fail(format!("{ID}/concurrent/not-exactly-one-accepted"), format!("round {round}: {} of {} concurrent submissions of seq {seq} accepted: {results:?}", valid, c.threads));
-            break;
+                    if go.load(AO::Acquire) == usize::MAX {
+                        return;
+                    }
+                    let r = h.block_on(async {
+                        if via_batch {
+                            let ts = now();
+                            let r = sys.batch_update(vec![BatchUpdateRequest { user_id: peer.clone(), sequence: seq, message_hash: hash, timestamp: ts }]).await.unwrap();
+                            r[0].result.clone()
+                        } else {
+                            sys.validate_sequence(&peer, seq, hash).await.unwrap()
+                        }
+                    });
+                    *slots[round * threads + t].lock().unwrap() = Some(r);
+                    done.fetch_add(1, AO::AcqRel);
+                }
+            });
         }
-        if results.iter().any(|r| !matches!(r, R::Valid | R::Replay)) {
-            v.fail(format!("{ID}/concurrent/loser-not-replay"), format!("round {round}: {results:?}"));
-            break;
+        for round in 0..rounds {
+            let seq = round as u64 + 1;
+            go.store(round + 1, AO::Release);
+            while done.load(AO::Acquire) < threads * (round + 1) {
+                std::hint::spin_loop();
+            }
+            let results: Vec<R> = (0..threads).map(|t| slots[round * threads + t].lock().unwrap().clone().unwrap_or(R::Replay)).collect();
+            let valid = results.iter().filter(|r| matches!(r, R::Valid)).count();
+            total_valid += valid as u64;
+            if valid != 1 {
+                v.fail(format!("{ID}/concurrent/not-exactly-one-accepted"), format!("round {round}: {} of {} concurrent submissions of seq {seq} accepted: {results:?}", valid, c.threads));
+                go.store(usize::MAX, AO::Release);
+                break;
+            }
+            if results.iter().any(|r| !matches!(r, R::Valid | R::Replay)) {
+                v.fail(format!("{ID}/concurrent/loser-not-replay"), format!("round {round}: {results:?}"));
+                go.store(usize::MAX, AO::Release);
+                break;
+            }
+        }
+        go.store(usize::MAX, AO::Release);
+    });
+    // the counter must sit exactly on the last number, and the history must hold each number once
+    if v.ok() {
+        let last = rt.block_on(async { sys.get_peer_counter(&peer).await });
+        if let Some(pc) = last {
+            if pc.last_valid_sequence != rounds as u64 {
+                v.fail(format!("{ID}/concurrent/counter-not-on-the-last-accepted-number"), format!("after {rounds} rounds last_valid_sequence={}", pc.last_valid_sequence));
+            }
         }
     }
     v.nt(c.threads >= 2 && total_valid >= 2);
@@ -393,7 +425,7 @@ pub fn run(run: &Run) {
     run.assume("wall-clock window edges (±60 s, −3600 s) are given a 5 s dead band in which any classification is accepted");
     run.assume("reload is reached through the public start_sync_task (first interval tick is immediate) and observed via get_stats().persistence_ops");
     run.set_rule("history", "history of validate/batch/sync-reload/cleanup over 1..4 peers; non-trivial = ≥1 accepted and ≥2 rejected submissions of ≥2 different rejection classes; distinct by hash of the operation list");
-    run.set_rule("concurrent", "T real threads released by a barrier submit the same (peer, seq), many rounds; non-trivial = T≥2 and ≥2 rounds; distinct by (T, rounds, path, hashes)");
+    run.set_rule("concurrent", "T OS threads lined up by a spinning start gate submit the same (peer, seq) - number 1 to a fresh peer, every later number to a known peer - through validate_sequence or batch_update, many rounds; non-trivial = T≥2 and ≥2 rounds; distinct by (T, rounds, path, hashes)");
     let (len, n) = match run.tier {
         Tier::Quick => (60, 1200),
         Tier::Thorough => (400, 30000),
